@@ -171,6 +171,7 @@ func run(ctx *Ctx) *Result {
 		}
 		cases = append(cases, genFaults(ctx.Thorough())...)
 		cases = append(cases, genMulti(ctx.Thorough())...)
+		cases = append(cases, genLogin()...)
 		// quick tier: the placements that end in a time-out of the real code (known finding) cost > 1 s each
 		if !ctx.Thorough() {
 			var keep []Case
@@ -369,6 +370,32 @@ func judge(ctx *Ctx, res *Result, drv *Nadrv, c *Case, o *WOutcome, base *WOutco
 		res.Sample(in)
 	}
 
+	if c.Login != "" {
+		// the login / enable dialogue: the model (loginEnable against echoDev) predicts the lines and the result
+		res.Count("login-variant:" + c.Login)
+		done, bad := judgeLogin(res, drv, c, o, in)
+		if base != nil {
+			normLogin(drv, c, base)
+		}
+		if done || bad {
+			return bad && envFailure(o)
+		}
+	}
+	if m := c.Multi; m != nil && m.Shape == "shrun-prompt" {
+		// what the session sees of the configuration: model of GetCmdOutput("sh run")
+		f := strings.Split(drv.Ask("getout\t"+esc(c.Special["sh run"][0])), "\t")
+		var seen []string
+		if len(f) == 3 && f[0] == "ok" {
+			for _, l := range strings.Split(unesc(f[1]), "\n") {
+				if strings.HasPrefix(l, "ip route") {
+					seen = append(seen, l)
+				}
+			}
+		}
+		if strings.Join(seen, "\n") != strings.Join(c.SeenDevice, "\n") {
+			res.Disagree("sh-run-model", in, strings.Join(c.SeenDevice, "|"), strings.Join(seen, "|"))
+		}
+	}
 	if len(c.Splits) > 0 {
 		res.Count("timing:answer-in-pieces")
 	}
@@ -514,10 +541,20 @@ func judge(ctx *Ctx, res *Result, drv *Nadrv, c *Case, o *WOutcome, base *WOutco
 	}
 	if has("write memory") {
 		// device-side truth: every change line was received and none got unacceptable output
-		for _, ch := range o.Changes {
+		truth := o.Changes
+		if o.TrueChanges != nil {
+			truth = o.TrueChanges // what the device really needs (the session saw a prefix of its configuration)
+		}
+		for _, ch := range truth {
 			for _, l := range strings.Split(ch, "\n") {
 				if !has(l) || isBad(c.Behav[l].Out) {
-					res.Fail(map[string]any{"pred": "write_memory_although_change_not_accepted"}, "write memory was sent although a change was not sent or was rejected by the device", in)
+					if o.TrueChanges != nil {
+						// the hard predicate, with the attributes of the run: only the exact known class is absorbed
+						fail(map[string]any{"pred": "write_memory_although_change_not_accepted", "on": "sh run", "shape": c.Multi.Shape, "missing": l},
+							"write memory was sent although a change the device needs was not sent: the session read a prefix of `sh run`")
+					} else {
+						res.Fail(map[string]any{"pred": "write_memory_although_change_not_accepted"}, "write memory was sent although a change was not sent or was rejected by the device", in)
+					}
 				}
 			}
 		}
@@ -794,4 +831,71 @@ func firstLine(s string) string {
 		s = s[:200]
 	}
 	return s
+}
+
+// loginModel asks the Lean model of LoginEnable for the lines it sends and its result
+func loginModel(drv *Nadrv, c *Case) (result string, lines []string) {
+	parts := strings.Split(loginPreambles[c.Login], "<!>")
+	var ps []string
+	for _, p := range parts[1:] {
+		ps = append(ps, esc(p))
+	}
+	f := strings.Split(drv.Ask("login\tsecret\t"+esc(parts[0])+"\t"+strings.Join(ps, "|")), "\t")
+	if len(f) != 4 {
+		return "bad-answer", nil
+	}
+	result = strings.TrimPrefix(f[0], "R=")
+	t := strings.TrimPrefix(f[1], "T=")
+	for _, l := range strings.Split(t, "|") {
+		lines = append(lines, unesc(l))
+	}
+	return
+}
+
+// normLogin replaces the login lines of a variant by those of the standard dialogue (the rest of the
+// oracle is about what follows `sh run`)
+func normLogin(drv *Nadrv, c *Case, o *WOutcome) bool {
+	_, want := loginModel(drv, c)
+	if len(o.Lines) < len(want) {
+		return false
+	}
+	for i, l := range want {
+		if o.Lines[i] != l {
+			return false
+		}
+	}
+	o.Lines = append([]string{"secret", ""}, o.Lines[len(want):]...)
+	return true
+}
+
+// judgeLogin: done = the case ends with the login (failure variants); bad = the real code differs from the model
+func judgeLogin(res *Result, drv *Nadrv, c *Case, o *WOutcome, in replayIn) (done, bad bool) {
+	result, want := loginModel(drv, c)
+	got := append([]string{}, o.Lines...)
+	if n := len(got); n > 0 && got[n-1] == "exit" && result != "ok" {
+		got = got[:n-1]
+	}
+	implR := "ok"
+	switch {
+	case strings.Contains(o.Stderr, "Authentication for enable mode failed"):
+		implR = "abort:loginFailed:enable"
+	case strings.Contains(o.Stderr, "Authentication failed"):
+		implR = "abort:loginFailed:login"
+	case o.Panic != "":
+		implR = "panic"
+	}
+	if result != "ok" {
+		res.TracesVsImpl++
+		if implR != result || strings.Join(got, "|") != strings.Join(want, "|") || o.Status == 0 {
+			res.Disagree("login", in, fmt.Sprintf("R=%s status=%d T=%s", implR, o.Status, strings.Join(got, "|")), "R="+result+" T="+strings.Join(want, "|"))
+			return true, true
+		}
+		res.Count("result:login refused (no command sent afterwards)")
+		return true, false
+	}
+	if implR != "ok" || !normLogin(drv, c, o) {
+		res.Disagree("login", in, fmt.Sprintf("R=%s T=%s", implR, strings.Join(got, "|")), "R=ok T="+strings.Join(want, "|"))
+		return true, true
+	}
+	return false, false
 }
